@@ -258,10 +258,13 @@ def parse_tree(tree: Dict[str, Any], core: bool = False) -> Dict[str, Any]:
                 raise
             return {"ok": False, "cls": type(e).__name__, "msg": str(e)[:200].replace(str(base), "<tmp>")}
         defs = {}
+
+        def _s(x) -> str:       # a tree whose raw text / hash is not a string any more: an observation, not a crash
+            return x if isinstance(x, str) else "<not a string: %s>" % type(x).__name__
         for k, v in p.struct_defs.items():
-            defs[k] = {"raw": v.raw, "hash": v.hash, "kind": "s", "nfields": [f.name for f in v.fields]}
+            defs[k] = {"raw": _s(v.raw), "hash": _s(v.hash), "kind": "s", "nfields": [f.name for f in v.fields]}
         for k, v in p.message_defs.items():
-            defs[k] = {"raw": v.raw, "hash": v.hash, "kind": "m", "nfields": [f.name for f in v.fields]}
+            defs[k] = {"raw": _s(v.raw), "hash": _s(v.hash), "kind": "m", "nfields": [f.name for f in v.fields]}
         return {"ok": True, "defs": defs}
     finally:
         os.chdir(cwd)
